@@ -294,6 +294,25 @@ func TestConcurrent(t *testing.T) {
 			})
 			res.PerMix["render-after-failed-calls"]++
 		}
+		// A3: every goroutine renders (and builds the graphs of) its OWN deeply nested model - resources counted per
+		// process instead of per call (depth, memory, pooled buffers) add up here and nowhere else
+		{
+			var ms []*openfgav1.AuthorizationModel
+			var wants []string
+			for i := 0; i < workers; i++ {
+				m := gen.DeepModel(40+r.Intn(50), i)
+				ms = append(ms, m)
+				wants = append(wants, renderKey(proto.Clone(m).(*openfgav1.AuthorizationModel), false)+"|"+buildKey(proto.Clone(m).(*openfgav1.AuthorizationModel)))
+			}
+			res.OverlappingPairs += barrierRun(workers, func(w int) {
+				got := renderKey(ms[w], false) + "|" + buildKey(ms[w])
+				atomic.AddInt64(&calls, 1)
+				if got != wants[w] {
+					report(mismatch{Mix: "render-and-build-deep-models", Detail: "concurrent rendering / building of distinct deep models differs from the sequential one", Model: mj(ms[w]), Expected: wants[w], Observed: got})
+				}
+			})
+			res.PerMix["render-and-build-deep-models"]++
+		}
 		// B: render + both graph builders + utils on the same model
 		{
 			base := modularUnsorted(r)
